@@ -191,8 +191,7 @@ func ruleErrorRouting(p *Prog, r *Out) {
 			if !ok {
 				return true
 			}
-			t := p.text(ifs.Cond)
-			if strings.Contains(t, "errors.As(err, &connErr)") && strings.Contains(t, "connErr.frameType == FrameGoAway") {
+			if p.isConjunctionOf(ifs.Cond, "errors.As(err,&connErr)", "connErr.frameType==FrameGoAway", "connErr.Code()!=NoError") {
 				for _, s := range ifs.Body.List {
 					if b, ok := s.(*ast.BranchStmt); ok && b.Tok == token.BREAK && b.Label != nil {
 						leaves = true
@@ -202,7 +201,7 @@ func ruleErrorRouting(p *Prog, r *Out) {
 			return true
 		})
 	}
-	r.check(leaves, "connection error ends the stream loop", pos, "GoAway-class error -> break loop", "after a connection-class error from handleFrame the stream loop keeps serving the connection")
+	r.check(leaves, "connection error ends the stream loop", pos, "errors.As && frameType == GoAway && Code != NoError -> break loop", "the stream loop no longer leaves exactly when handleFrame returned a connection-class error with a code other than NO_ERROR: either it keeps serving after a connection error, or a stream-level error (or the graceful NO_ERROR GOAWAY) now ends the whole connection")
 	// read loop: GoAway-class read error
 	rl := p.decl("(*serverConn).readLoop")
 	rd := false
@@ -212,8 +211,7 @@ func ruleErrorRouting(p *Prog, r *Out) {
 			if !ok {
 				return true
 			}
-			t := p.text(ifs.Cond)
-			if strings.Contains(t, "errors.As(err, &h2err)") && strings.Contains(t, "h2err.frameType == FrameGoAway") {
+			if p.isConjunctionOf(ifs.Cond, "errors.As(err,&h2err)", "h2err.frameType==FrameGoAway") {
 				ga, ret := false, false
 				for _, s := range ifs.Body.List {
 					if es, ok := s.(*ast.ExprStmt); ok {
@@ -812,5 +810,230 @@ func ruleValidatorStateMonotone(p *Prog, r *Out) {
 	}
 	if n < 5 {
 		r.bad("validation flags are maintained", "?", fmt.Sprintf("only %d stores to the request-validation flags found", n))
+	}
+}
+
+func init() {
+	register(&Rule{
+		Name: "conn-lifecycle", Props: []string{"C17", "C10", "C12", "C13"}, Engine: "AST", Floor: 12,
+		Doc: "connection set-up and teardown structure: every channel field the loops send on, receive from or close is created with make() before the goroutines start (a nil channel blocks for ever and close(nil) panics); teardown stops every timer; the graceful-close test waits exactly for request streams at or below the GOAWAY reference; an abandoned stream is released, not answered, when its handler reports back; the concurrency slot is returned under the condition it was taken",
+		Run: ruleConnLifecycle,
+	})
+}
+
+func ruleConnLifecycle(p *Prog, r *Out) {
+	// ---- channels are made before use
+	type owner struct {
+		typ   string
+		inits []string
+	}
+	for _, o := range []owner{{"serverConn", []string{"(*Server).ServeConn", "(*serverConn).Serve"}}, {"Conn", []string{"NewConn"}}} {
+		tn, ok := p.Pkg.Scope().Lookup(o.typ).(*types.TypeName)
+		if !ok {
+			r.undecided(o.typ, "?", "type no longer resolves")
+			continue
+		}
+		st := tn.Type().Underlying().(*types.Struct)
+		made := map[string]bool{}
+		for _, fn := range o.inits {
+			fd := p.decl(fn)
+			if fd == nil {
+				continue
+			}
+			r.fn(fn)
+			ast.Inspect(fd.Body, func(n ast.Node) bool {
+				switch x := n.(type) {
+				case *ast.AssignStmt:
+					if len(x.Lhs) == 1 && len(x.Rhs) == 1 {
+						if sel, ok := x.Lhs[0].(*ast.SelectorExpr); ok {
+							if ow, f, ok := p.fieldOf(sel); ok && ow == o.typ {
+								if c, ok := x.Rhs[0].(*ast.CallExpr); ok && p.calleeOf(c) == "builtin.make" {
+									// must be unconditional in the init function
+									if topLevelIn(fd.Body.List, x) {
+										made[f] = true
+									}
+								}
+							}
+						}
+					}
+				case *ast.KeyValueExpr:
+					if id, ok := x.Key.(*ast.Ident); ok {
+						if c, ok := x.Value.(*ast.CallExpr); ok && p.calleeOf(c) == "builtin.make" {
+							made[id.Name] = true
+						}
+					}
+				}
+				return true
+			})
+		}
+		for i := 0; i < st.NumFields(); i++ {
+			f := st.Field(i)
+			if _, isChan := f.Type().Underlying().(*types.Chan); !isChan {
+				continue
+			}
+			r.check(made[f.Name()], o.typ+"."+f.Name()+" is made at set-up", p.pos(f.Pos()), "make() unconditionally in "+strings.Join(o.inits, "/"),
+				fmt.Sprintf("channel %s.%s is not created with make() unconditionally during set-up: it stays nil, every send or receive on it blocks for ever and close() of it panics (in a timer goroutine that takes the process down)", o.typ, f.Name()))
+		}
+	}
+	// ---- teardown stops the timers
+	if fd := p.decl("(*serverConn).close"); fd != nil {
+		r.fn("(*serverConn).close")
+		stopped := map[string]bool{}
+		inspectCalls(fd.Body, func(c *ast.CallExpr) {
+			if p.calleeOf(c) == "(*time.Timer).Stop" {
+				if sel, ok := c.Fun.(*ast.SelectorExpr); ok {
+					if _, f, ok := p.fieldOf(sel.X.(*ast.SelectorExpr)); ok {
+						stopped[f] = true
+					}
+				}
+			}
+		})
+		for _, t := range []string{"pingTimer", "maxIdleTimer", "maxRequestTimer"} {
+			r.check(stopped[t], "teardown stops "+t, p.pos(fd.Pos()), t+".Stop()", "(*serverConn).close no longer stops "+t+": the timer keeps firing (and re-arming) for a connection that is gone")
+		}
+		// nil guards for the optional timers: every Stop on one sits under `sc.<timer> != nil`
+		pm := p.pmFor(fd)
+		inspectCalls(fd.Body, func(c *ast.CallExpr) {
+			if p.calleeOf(c) != "(*time.Timer).Stop" {
+				return
+			}
+			sel, ok := c.Fun.(*ast.SelectorExpr)
+			if !ok {
+				return
+			}
+			rs, ok := sel.X.(*ast.SelectorExpr)
+			if !ok {
+				return
+			}
+			_, f, ok := p.fieldOf(rs)
+			if !ok || (f != "pingTimer" && f != "maxIdleTimer") {
+				return
+			}
+			guarded := false
+			for _, g := range p.knownFacts(pm, c) {
+				if g.Val && squash(p.text(g.Cond)) == squash(p.text(rs))+"!=nil" {
+					guarded = true
+				}
+			}
+			r.check(guarded, "optional timer "+f+" nil-guarded", p.pos(c.Pos()), "!= nil", "the optional timer "+f+" is stopped without a nil test although it is only created when pings / the idle timeout are enabled: ServeConn panics on every connection close with the feature off")
+		})
+	} else {
+		r.undecided("(*serverConn).close", "?", "no longer resolves")
+	}
+	if fd := p.decl("(*serverConn).Serve"); fd != nil {
+		called := false
+		for _, s := range fd.Body.List {
+			if es, ok := s.(*ast.ExprStmt); ok {
+				if c, ok := es.X.(*ast.CallExpr); ok && p.calleeOf(c) == "(*serverConn).close" {
+					called = true
+				}
+			}
+		}
+		r.check(called, "Serve tears the timers down", p.pos(fd.Pos()), "sc.close() after the read loop", "Serve no longer calls sc.close() unconditionally after the read loop returns")
+	}
+	// ---- graceful close test
+	if lit := p.closureLit("(*serverConn).handleStreams", "canCloseAfterGoAway"); lit != nil {
+		zero, loopOK, tail := false, false, false
+		for _, s := range lit.Body.List {
+			switch x := s.(type) {
+			case *ast.IfStmt:
+				if squash(p.text(x.Cond)) == "ref==0" {
+					for _, b := range x.Body.List {
+						if rs, ok := b.(*ast.ReturnStmt); ok && p.text(rs.Results[0]) == "false" {
+							zero = true
+						}
+					}
+				}
+			case *ast.RangeStmt:
+				for _, b := range x.Body.List {
+					if ifs, ok := b.(*ast.IfStmt); ok {
+						t := squash(p.text(ifs.Cond))
+						if t == "strm.origType==FrameHeaders&&strm.ID()<=ref" {
+							for _, bb := range ifs.Body.List {
+								if rs, ok := bb.(*ast.ReturnStmt); ok && p.text(rs.Results[0]) == "false" {
+									loopOK = true
+								}
+							}
+						}
+					}
+				}
+			case *ast.ReturnStmt:
+				if p.text(x.Results[0]) == "true" {
+					tail = true
+				}
+			}
+		}
+		r.check(zero && loopOK && tail, "graceful close waits for promised request streams only", p.pos(lit.Pos()), "ref==0 -> no; any HEADERS-opened stream with id <= ref -> not yet; else yes",
+			"canCloseAfterGoAway no longer means 'a GOAWAY reference exists and no request stream at or below it is still in the table': the connection either closes while promised requests are unanswered or never closes after a graceful GOAWAY")
+	} else {
+		r.undecided("canCloseAfterGoAway", "?", "closure no longer resolves")
+	}
+	// ---- abandoned streams
+	if fd := p.decl("(*serverConn).handleStreams"); fd != nil {
+		marks := false
+		if lit := p.closureLit("(*serverConn).handleStreams", "closeStream"); lit != nil {
+			for _, s := range lit.Body.List {
+				if ifs, ok := s.(*ast.IfStmt); ok && p.isFieldSel(ifs.Cond, "Stream", "handlerRunning") {
+					for _, b := range ifs.Body.List {
+						if as, ok := b.(*ast.AssignStmt); ok && p.isFieldSel(as.Lhs[0], "Stream", "abandoned") && p.text(as.Rhs[0]) == "true" {
+							marks = true
+						}
+					}
+				}
+			}
+		}
+		r.check(marks, "closing under a running handler marks the stream abandoned", p.pos(fd.Pos()), "abandoned = true", "closeStream no longer marks a stream whose handler is still running as abandoned: when the handler reports back, its response is sent on a stream that was reset or timed out, and the stream is closed a second time")
+		rel := false
+		ast.Inspect(fd.Body, func(n ast.Node) bool {
+			cc, ok := n.(*ast.CommClause)
+			if !ok || cc.Comm == nil || !strings.Contains(p.text(cc.Comm), "<-sc.handlerDone") {
+				return true
+			}
+			for _, s := range cc.Body {
+				if ifs, ok := s.(*ast.IfStmt); ok && p.isFieldSel(ifs.Cond, "Stream", "abandoned") {
+					r1, cont := false, false
+					for _, b := range ifs.Body.List {
+						if es, ok := b.(*ast.ExprStmt); ok && strings.HasPrefix(p.text(es.X), "releaseStream(") {
+							r1 = true
+						}
+						if br, ok := b.(*ast.BranchStmt); ok && br.Tok == token.CONTINUE {
+							cont = true
+						}
+					}
+					// and it precedes finishRequest
+					for _, s2 := range cc.Body {
+						if s2.Pos() > ifs.Pos() && strings.Contains(p.text(s2), "sc.finishRequest(") && r1 && cont {
+							rel = true
+						}
+					}
+				}
+			}
+			return true
+		})
+		r.check(rel, "abandoned stream released, not answered", p.pos(fd.Pos()), "if abandoned { releaseStream; continue } before finishRequest", "when a handler reports back for an abandoned stream the loop no longer releases it and moves on before finishRequest: a response is encoded (advancing the shared HPACK encoder) and sent for a stream the peer reset")
+		// slot returned under the condition it was taken
+		if lit := p.closureLit("(*serverConn).handleStreams", "releaseStream"); lit != nil {
+			mirrored := false
+			for _, s := range lit.Body.List {
+				if ifs, ok := s.(*ast.IfStmt); ok && squash(p.text(ifs.Cond)) == "strm.origType==FrameHeaders" {
+					for _, b := range ifs.Body.List {
+						if d, ok := b.(*ast.IncDecStmt); ok && d.Tok == token.DEC && p.text(d.X) == "openStreams" {
+							mirrored = true
+						}
+					}
+				}
+			}
+			r.check(mirrored, "slot returned under the condition it was taken", p.pos(lit.Pos()), "origType == FrameHeaders -> openStreams--", "releaseStream no longer returns the concurrency slot exactly for streams that took one (opened by HEADERS): the count drifts, and the connection refuses every stream after enough requests or stops enforcing the limit")
+		}
+		// createStream records how the stream was opened
+		if cd := p.decl("(*serverConn).createStream"); cd != nil {
+			rec := false
+			for _, s := range cd.Body.List {
+				if as, ok := s.(*ast.AssignStmt); ok && p.isFieldSel(as.Lhs[0], "Stream", "origType") && p.text(as.Rhs[0]) == "frameType" {
+					rec = true
+				}
+			}
+			r.check(rec, "stream remembers the frame that opened it", p.pos(cd.Pos()), "origType = frameType", "createStream no longer records the frame type that created the stream: slot accounting and the graceful-close test depend on it")
+		}
 	}
 }
